@@ -207,7 +207,33 @@ def run(ctx):
         if got != f"ok {lo + 256 * hi + b}":
             s2.violate({"fn": "base_relative_16bits_pointer_formula", "base": b, "v": [lo, hi]}, lo + 256 * hi + b, got, "not lo + 256*hi + base")
     s2.sample({"pair": pairs[0], "model": model[0]})
-    streams = [s, s2]
+    # the assembler under each mapping option (selected the way the file API / command line select it: after the Program
+    # exists) places a byte assembled at rom_to_snes(off, mode) at file offset off
+    s4 = core.Stream("S10-assembler-agrees", "for each mapping (low, low2, high) a Program whose mapping is selected after construction (as Program.assemble / assemble_as_patch / the command line do) assembles `*=rom_to_snes(off, mode)` + one byte: the writer receives it at file offset off, and snes_to_rom of the address is off")
+    import io as _io2
+    from a816.program import Program as _Program
+    for mode, mapping in (("low_rom", "low"), ("low_rom_2", "low2"), ("high_rom", "high")):
+        limit = MODES[mode][3]
+        for off in [0, 0x7FFF, 0x8000, 0x12345, 0x1FFFFE, rng.randrange(min(limit, 0x200000)), rng.randrange(min(limit, 0x200000))]:
+            a = r2s(off, RomType[mode])
+            w = impl.CollectWriter()
+            try:
+                with impl.quiet():
+                    p_ = _Program()
+                    if hasattr(p_, "_select_mapping"):
+                        p_._select_mapping(mapping)
+                    else:
+                        p_.resolver.rom_type = RomType[mode]
+                    err = p_.assemble_string_with_emitter(f"*=0x{a:06x}\n.db 0x42\n", "m.s", w)
+                got = w.blocks[0][0] if err is None and w.blocks else ("error", err)
+            except Exception as e:  # noqa: BLE001
+                got = ("raised", type(e).__name__)
+            s4.cases += 1
+            s4.nontrivial.add((mode, off // 0x8000))
+            if got != off:
+                s4.violate({"mapping": mapping, "offset": hex(off), "address": hex(a)}, off, got, "a byte assembled at rom_to_snes(off, mode) under that mapping is not written at file offset off")
+    s4.sample({"mapping": "high", "offset": "0x8000", "address": "0xc08000"})
+    streams = [s, s2, s4]
 
     if tier == "thorough":
         s3 = core.Stream("S10-exhaustive", "every offset of the 4 MiB space x 3 modes: rom_to_snes vs model and Spec.address by rolling hash per 64 KiB chunk; mapped offset and snes_to_rom inverse checked on the real code for every in-range offset")
